@@ -98,7 +98,7 @@ impl Property for C13 {
         384
     }
     fn required_counters(&self) -> Vec<&'static str> {
-        vec!["runs", "read_target_runs", "tree_verdict_on_followed_link", "tree_verdict_on_link", "tree_discard_with_descendants", "two_tree_verdicts_same_directory", "tree_verdict_on_file", "tripwires_armed", "discard_on_walk_root", "file_verdict_on_directory"]
+        vec!["runs", "glob_component_discard_required", "read_target_runs", "tree_verdict_on_followed_link", "tree_verdict_on_link", "tree_discard_with_descendants", "two_tree_verdicts_same_directory", "tree_verdict_on_file", "tripwires_armed", "discard_on_walk_root", "file_verdict_on_directory"]
     }
     fn decode(&self, t: &mut Tape) -> Case {
         let tree = gen_tree(t, &TreeCfg { links: true, ..TreeCfg::default() });
@@ -256,7 +256,7 @@ impl Property for C13 {
                             return Err(format!("glob `{}`: the bare walk feeds an entry more than once: {:?}", g.glob, o.logs.last().unwrap()));
                         }
                         let yielded = o.items.iter().filter_map(|i| i.rel.clone()).collect();
-                        match observe(&entries, g, fed, yielded) {
+                        match observe(&entries, g, fed, yielded, true) {
                             Ok(ob) => Some(ob),
                             Err(m) => return Err(format!("{} [tree {:?}]", m, case.tree.nodes.iter().map(|n| n.path.as_str()).collect::<Vec<_>>())),
                         }
@@ -267,6 +267,17 @@ impl Property for C13 {
                 }
             },
         };
+        if let Some(g) = &glob_rt {
+            // how often the first sentence's glob clause is exercised: a directory with
+            // descendants whose own name a plain component rejects
+            if entries.iter().any(|(rel, is_dir)| {
+                *is_dir
+                    && component_cannot_match(g, rel).is_some()
+                    && entries.iter().any(|(d, _)| d.starts_with(&format!("{}/", rel)))
+            }) {
+                st.count("glob_component_discard_required");
+            }
+        }
         let m = model_with(&entries, glob_rt.as_ref(), observed.as_ref(), &layers_rt);
         // tripwires
         let unprivileged = unsafe { libc::geteuid() } != 0;
